@@ -184,6 +184,19 @@ def run_task(t, mode):
             return a.view(GuardedArray) if a.ndim >= 1 else a
         W.arr = arr
         W.flw._idxs_ds = W.flw._idxs_ds.view(GuardedArray)
+    aged = []
+    cached_before = {}
+    if mode == "guard" and opd["group"] not in ("kernel",) and t.get("age", True):
+        # the object the operation runs on has, in half of the tasks, answered other queries before (warm caches)
+        import random
+        arng = random.Random(hash_task(t))
+        if arng.random() < 0.5:
+            aged = catalogue.age(W.flw, arng, focus=(t["op"],), loopfree=not t["world"].get("loops", False))
+            VIOL.clear()
+            API_MUT.clear()
+            del made[:]
+        # arrays the object holds for later queries: a query may add entries but must not modify one in place
+        cached_before = {k: (v, np.array(v, copy=True)) for k, v in getattr(W.flw, "_cached", {}).items() if isinstance(v, np.ndarray)}
     ds_before = np.array(W.flw.idxs_ds).copy()
     t0 = time.time()
     signal.signal(signal.SIGALRM, _alarm)
@@ -207,7 +220,62 @@ def run_task(t, mode):
         out["inputs_mutated"] = mutated + sorted(set(API_MUT))
         if t["op"] not in MUTATORS and not np.array_equal(ds_before, np.array(W.flw.idxs_ds)):
             out["object_mutated"] = True
+        if t["op"] not in MUTATORS:
+            out["cache_mutated"] = sorted(k for k, (v, c) in cached_before.items()
+                                          if not (np.array_equal(v, c) or (v.dtype.kind == "f" and np.array_equal(v, c, equal_nan=True))))
+        if out.get("status") == "ok" and opd["group"] not in ("kernel",) and t.get("age", True):
+            out["state_diverged"] = twin_diff(W)
+        out["aged"] = [a[0] for a in aged]
     return out
+
+
+def hash_task(t):
+    import hashlib
+    return int(hashlib.sha1(json.dumps([t["world"]["ds"], t["op"], t["args"]], sort_keys=True, default=str).encode()).hexdigest()[:12], 16)
+
+
+PROBES = ["rank", "idxs_pit", "nnodes", "idxs_us_main", "n_upstream", "distnc", "mask"]
+
+
+def twin_diff(W):
+    """public state of the object after the operation vs a freshly constructed object holding the same network,
+    transform and settings: every probe must agree (a query leaves no trace; after a mutator everything reflects
+    the new network)"""
+    from pyflwdir.pyflwdir import FlwdirRaster
+    from pyflwdir.flwdir import Flwdir
+    f = W.flw
+    _DEPTH[0] += 1   # probes are not API-boundary calls of the operation under test
+    try:
+        if W.w["cls"] == "raster":
+            g = FlwdirRaster(np.array(f.idxs_ds).copy(), f.shape, f.ftype, transform=f.transform, latlon=f.latlon, cache=True)
+            probes = PROBES + ["area"]
+        else:
+            g = Flwdir(np.array(f.idxs_ds).copy(), cache=True)
+            probes = list(PROBES)
+        loops = W.w.get("loops", False)
+        bad = []
+        for p in probes:
+            if loops and p in ("idxs_us_main", "distnc"):
+                continue
+            try:
+                a, b = catalogue.canon(getattr(f, p), W), catalogue.canon(getattr(g, p), W)
+            except Exception as e:  # noqa: BLE001
+                bad.append(f"{p}: raised {type(e).__name__}")
+                continue
+            if a != b and not catalogue.floats_close32(a, b):
+                bad.append(p)
+        for nm, call in (("stream_order()", lambda o: o.stream_order()), ("upstream_area()", lambda o: o.upstream_area()),
+                         ("stream_order(classic)", lambda o: o.stream_order(type="classic"))):
+            try:
+                a, b = catalogue.canon(call(f), W), catalogue.canon(call(g), W)
+            except Exception as e:  # noqa: BLE001
+                bad.append(f"{nm}: raised {type(e).__name__}")
+                continue
+            if a != b and not catalogue.floats_close32(a, b):
+                bad.append(nm)
+        return bad
+    finally:
+        _DEPTH[0] -= 1
 
 
 def run_errors(t):
